@@ -54,6 +54,16 @@ def _leaf_ok(kind, x, e, scale=None):
     if _is_any(e) or (kind in ("ssqrt", "tail_normal") and _is_any(e[1])):
         return True
     if scale is not None and isinstance(x, (int, float)) and not isinstance(x, bool):
+        # observed = scale * sqrt(leaf), with IEEE rules for a zero / undefined scale
+        if scale[1] == 0:
+            leaf_zero_or_nan = (e[1] == 0 and e[0] == 0) or (e[1] != 0 and e[0] == 0)
+            if scale[0] == 0 or leaf_zero_or_nan:
+                return isinstance(x, float) and math.isnan(x)
+            return isinstance(x, float) and math.isinf(x)
+        if scale[0] == 0:
+            if e[1] == 0:
+                return isinstance(x, float) and math.isnan(x)
+            return abs(x) <= 1e-12
         x = x * scale[1] / scale[0]
     if kind == "num":
         return close_rat(x, e[0], e[1])
@@ -132,7 +142,7 @@ def compare(observed, expected):
         errs.append(((), None, "value of kind %s" % kind))
         return errs
     scale = expected.get("scale")
-    if scale is not None and scale[0] == scale[1]:
+    if scale is not None and list(scale) == [1, 1]:
         scale = None
     _walk(kind, nd, obs, v, [], errs, scale)
     return errs
